@@ -200,6 +200,11 @@ def lean_check(prop, tier='quick'):
         except Exception:
             pass
         skel = skeleton_obligation(prop, mods)
+        try:
+            pin_sk = json.load(open(os.path.join(ROOT, 'tools', 'pinned_skeleton.json')))['skeleton']
+            res['skeleton'] = {'files': len(pin_sk), 'items_compared_with_the_pinned_tree': sum(len(v) for v in pin_sk.values()),
+                               'differences_concerning_this_property': skel, 'renames_recognised': json.load(open(os.path.join(BUILD, 'gen_fns_report.json'))).get('renamed', {})}
+        except Exception: pass
         proof_mods = [m for m in mods if m.startswith('Sucds.Props.') or m.startswith('Sucds.Proofs.')]
         all_thms = []
         for m in proof_mods:
@@ -751,7 +756,7 @@ def main():
             'configurations': cfgs, 'stats_by_configuration': stats_by_cfg, 'corpus_cases': ncorpus,
             'leanchecker': lean.get('leanchecker'),
             'large_value_self_checking_requests': BIG_STATS['requests'] if prop in gens.BIG_SEARCH_PROPS else None,
-            'function_translator': lean.get('translator'), 'generated_vs_model_evaluation': lean.get('gen_vs_model_test'),
+            'function_translator': lean.get('translator'), 'text_outside_translated_bodies': lean.get('skeleton'), 'generated_vs_model_evaluation': lean.get('gen_vs_model_test'),
             'theorems_about_generated_definitions': lean.get('generated_definition_theorems', []),
             'explanation': 'theorems over the Lean model re-checked by lake build against constants regenerated from /repo; model tied to /repo by running %d generated cases through the real code (%s) and the model driver, comparing implementation vs model (tie), implementation vs specification (oracle) and model vs specification' % (evaluations, ', '.join(cfgs)),
             'exhaustive': False,
